@@ -290,6 +290,14 @@ PROPERTIES["C12"] = {
            "thorough": "topics of length 0..2, messages of length 0..2"},
           params={"quick": {"ops": 3, "topic_len": 1, "msg_len": 2, "via_socket": True}, "thorough": {"ops": 3, "topic_len": 2, "msg_len": 2, "via_socket": True}},
           budget={"quick": 500, "thorough": 3300}, required_covers=["c12.match", "c12.no-match"]),
+        M("c12_pub_never_blocks", "d_c12", "pub_never_blocks",
+          "Distributor::{send_to_all, send_to_all_multipart} (the PUB fan-out, coroutine MIR) over two real connection objects (ScaConnectionIface for tcp/ipc sessions, DirectInprocConnection for inproc), one of them with a full queue of capacity 1 (a subscriber that stopped reading), either order of the two in the fan-out; the connections carry the send timeout that the crate's creation site for that kind of connection computes for a PUB socket and a symbolic SNDTIMEO option (-1, 0, any positive value up to i32::MAX ms): the site's MIR is sliced backwards from the timeout argument to the expression that computes it, which is then evaluated (executed when it is a crate function); one poll of the publish call",
+          budget={"quick": 300, "thorough": 600},
+          required_covers=["c12.pub.dropped-for-the-stalled-subscriber.sca", "c12.pub.dropped-for-the-stalled-subscriber.inproc"]),
+        M("c12_pub_never_blocks_uring", "d_c12", "pub_never_blocks",
+          "the same with the MIR dump built with --features io-uring: adds the io_uring backend's ZmtpSmartConnection, whose send timeout comes from ZmtpEngineConfig::from(&SocketOptions) (sliced and evaluated the same way); signal_worker() stubbed",
+          budget={"quick": 300, "thorough": 600},
+          required_covers=["c12.pub.dropped-for-the-stalled-subscriber.engine_cfg"], features="uring"),
     ],
     "assumptions": MIRSYM_TRUST + ["HashMap<u8, Arc<RwLock<TrieNode>>> is modelled as an association list, AtomicUsize as a sequential cell (single-threaded histories)"],
     "manifest": {
@@ -297,9 +305,9 @@ PROPERTIES["C12"] = {
         "technique": "symbolic execution of SubscriptionTrie (MIR, z3) against a multiset-of-prefixes reference over all bounded histories",
         "text": "matches(t) holds iff some subscription with positive reference count is a byte-prefix of t (empty subscription matches everything), a topic subscribed N times stays active until unsubscribed N times, unsubscribing an inactive topic returns false and changes nothing - for every history within the bound, with topic and message bytes symbolic; the same holds when the history is issued as SUBSCRIBE / UNSUBSCRIBE options through SubSocket::set_pattern_option (the application's path).",
         "design_ref": "DESIGN.md §5 C12",
-        "note": "NOT claimed: delivery order / no duplicates on live sockets, publisher never blocking, concurrent matching while the subscription set changes, the filtered enqueue paths of PipeMessageSender.",
+        "note": "Also decided: a publish call completes at its first poll when a subscriber's queue is full and the other subscriber still gets the message - for every connection kind and the send timeout the crate gives a PUB socket's connections (known finding F27: with SNDTIMEO -1 or positive the publisher parks on the stalled subscriber). NOT claimed: delivery order / no duplicates on live sockets, concurrent matching while the subscription set changes, the filtered enqueue paths of PipeMessageSender (C09 covers their cancellation behaviour).",
     },
-    "outside": "live PUB/SUB sockets, concurrency, filtered enqueue paths",
+    "outside": "live PUB/SUB sockets, concurrency, filtered enqueue paths, more than two subscribers",
 }
 
 PROPERTIES["C13"] = {
@@ -573,6 +581,10 @@ PROPERTIES["C14"] = {
     "mirsym": [
         M("c14_sca_send_timeouts", "d_c14", "sca_send_timeouts",
           "ScaConnectionIface::{send_message, send_multipart, send_multipart_owned} (the tokio session's connection interface, coroutine MIR) on a full data pipe of capacity 1; SNDTIMEO in {-1, 0, any positive value up to i32::MAX ms (symbolic)}; tokio::time::timeout replaced by an object recording the duration it was armed with, its expiry at the second poll a free choice; then: room appears / still full / timer elapsed",
+          budget={"quick": 300, "thorough": 400},
+          required_covers=["c14.sca-send.wouldblock", "c14.sca-send.completed-after-wait", "c14.sca-send.still-waiting", "c14.sca-send.timed-out"]),
+        M("c14_inproc_send_timeouts", "d_c14", "inproc_send_timeouts",
+          "DirectInprocConnection::{send_multipart, send_multipart_owned} (the inproc transport's connection: the pipe is the peer socket's ingress queue) on a full queue of capacity 1 - the same obligations; clean_endpoint_uri() (text of a monitor event) stubbed, no monitor attached",
           budget={"quick": 300, "thorough": 400},
           required_covers=["c14.sca-send.wouldblock", "c14.sca-send.completed-after-wait", "c14.sca-send.still-waiting", "c14.sca-send.timed-out"]),
         M("c14_ingress_recv_timeouts", "d_c14", "ingress_recv_timeouts",
